@@ -48,7 +48,7 @@ TokVal(kind, i) ==
                             [] i % 4 = 2 -> "q " \o ToString(i)
                             [] i % 4 = 3 -> "/q" \o ToString(i) \o "/"                            \* "/q3/" - not a regexp
                             [] OTHER     -> ToString(i)                                          \* "4" - not a number
-    [] kind = "wild"   -> "w" \o ToString(i) \o "*"
+    [] kind = "wild"   -> IF i % 2 = 0 THEN "w" \o ToString(i) \o "\\\\*" ELSE "w" \o ToString(i) \o "*"   \* w2\\* : an escaped backslash, then a wildcard
     [] kind = "star"   -> "*"
     [] kind = "regexp" -> "/r" \o ToString(i) \o "/"
     [] kind = "int"    -> ToString(10 + i)
